@@ -37,7 +37,7 @@ func (c *Catalog) nodeFields(ns *NodeStruct) (names []string, kinds []string) {
 
 func ruleC17R1(w *World, r *Report) {
 	const rule = "C17/R1"
-	r.rule(rule, "walkInternal: one case per node struct; pushes = node-typed fields (go/types) in reverse declaration order; wrapNode/node for single, wrapNodes/nodes for slices; v.Field(name of that field); nothing else pushed; result is the extended stack", 250)
+	r.rule(rule, "walkInternal: one case per node struct; pushes = node-typed fields (go/types) in reverse declaration order; wrapNode/node for single, wrapNodes/nodes for slices; v.Field(name of that field); nothing else pushed; result is the extended stack", 125)
 	cat := w.Catalog()
 	info := w.Ast.TypesInfo
 	var fd *ast.FuncDecl
